@@ -256,6 +256,21 @@ class Prop(SeqProp):
                 if isinstance(e, (KeyboardInterrupt, SystemExit)):
                     raise
                 out.append(f"err {err_name(e)}")
+            if kind in ("buf", "pbuf") and len(out) in (3, 8) and out[-1] != "bad-op":
+                # copies of the buffer (shallow, deep, pickled) are made, looked at and dropped while values are held back: the
+                # buffer and what was printed so far stay as they are
+                from .. import core as _core
+                snap = (lambda o: (len(o), o.waiting_for() if kind == "buf" else o.waiting_for, sio.getvalue()))
+                cp = _core.clone_probe(obj, snap, collect=True)
+                if cp is not None:
+                    out[-1] = "mixin-mismatch copies of the buffer: " + cp + " ;; " + out[-1]
+        if kind == "pbuf" and out:
+            # the buffer is given up with whatever it still holds back: nothing more is printed
+            printed = sio.getvalue()
+            obj = None
+            if sio.getvalue() != printed:
+                out[-1] = (f"mixin-mismatch a buffer that was dropped while it held values back printed "
+                           f"{sio.getvalue()[len(printed):][:80]!r} ;; " + out[-1])
         return out
 
     def oracle(self, case, impl_out):
